@@ -346,6 +346,7 @@ func runC10(r *ev.Run) {
 			}
 			verifhook.DisarmAll()
 			c10PartCountSweep(r, cg, caseID, layer, innerMTU)
+			c10FailedTell(r, cg, caseID, layer, innerMTU)
 			if layer.name == "mbapp" {
 				c10AskReplies(r, cg, caseID, innerMTU)
 			}
@@ -677,6 +678,114 @@ func c10LargestMessage(r *ev.Run, g *rng.R, prop string, layer c10Layer) {
 			r.NonTrivial(fmt.Sprintf("%s/largest/parts=%d/len=mtu%+d", layer.name, len(frags), L-mtu))
 		} else {
 			r.Count(fmt.Sprintf("largest_not_delivered/%s/parts=%d/len=mtu%+d/deliveries=%d", layer.name, len(frags), L-mtu, got.Load()), 1)
+		}
+	}
+}
+
+// c10FailedTell: the transport refuses one fragment of a multi-part Tell with an error (for the receiver: a lost fragment, the
+// others are on their way), and the sender then tells another message of the same part count, and a third. Every schedule
+// feeds what got out of the failed Tell together with the later messages, whole or with one fragment missing: whatever the
+// sender does about its failed Tell, the destination may only deliver payloads that were sent, and none with a fragment missing.
+func c10FailedTell(r *ev.Run, g *rng.R, caseID string, layer c10Layer, innerMTU int) {
+	part := layer.part(innerMTU)
+	for _, n := range []int{2, 3, 5, 8} {
+		for failAt := 0; failAt < n; failAt += 1 + n/3 {
+			net := newWireNet(innerMTU)
+			outer := 14 * part
+			sw := layer.mk(net.node(1), outer)
+			var msgs []c10Message
+			var frags []c10Frag
+			calls, failNow := 0, false
+			net.fail = func(*wireMsg) error { // under net.mu
+				if !failNow {
+					return nil
+				}
+				calls++
+				if calls-1 == failAt {
+					return fmt.Errorf("transport refused this datagram")
+				}
+				return nil
+			}
+			failed := false
+			for j := 0; j < 3; j++ {
+				L := n*part - g.Intn(2)
+				p := g.Bytes(L)
+				copy(p, fmt.Sprintf("<F%d.%d>", n, j))
+				net.take()
+				net.mu.Lock()
+				failNow, calls = j == 0, 0
+				net.mu.Unlock()
+				err := sw.Tell(context.Background(), wireAddr{0}, p2p.IOVec{p})
+				if j == 0 {
+					failed = err != nil
+				}
+				mi := len(msgs)
+				m := c10Message{Sender: 1, Payload: p}
+				for fi, wm := range net.take() {
+					m.Frags = append(m.Frags, len(frags))
+					frags = append(frags, c10Frag{Src: wm.Src, Bytes: wm.Bytes, Msg: mi, K: fi})
+				}
+				if j == 0 {
+					// never complete: one fragment did not get out (the extra index is never fed)
+					m.Frags = append(m.Frags, -1)
+				}
+				msgs = append(msgs, m)
+			}
+			net.mu.Lock()
+			net.fail = nil
+			net.mu.Unlock()
+			sw.Close()
+			if !failed {
+				r.Count("failed_tell_not_reported_by_layer", 1)
+			}
+			real := func(mi int) []int {
+				var o []int
+				for _, fi := range msgs[mi].Frags {
+					if fi >= 0 {
+						o = append(o, fi)
+					}
+				}
+				return o
+			}
+			var schedules [][]int
+			all := append(append(append([]int{}, real(0)...), real(1)...), real(2)...)
+			schedules = append(schedules, all)
+			schedules = append(schedules, append(append(append([]int{}, real(1)...), real(0)...), real(2)...))
+			for miss := 0; miss < len(real(1)); miss++ {
+				var o []int
+				o = append(o, real(0)...)
+				for i, fi := range real(1) {
+					if i != miss {
+						o = append(o, fi)
+					}
+				}
+				schedules = append(schedules, o)
+				// and the other way round
+				var o2 []int
+				for i, fi := range real(1) {
+					if i != miss {
+						o2 = append(o2, fi)
+					}
+				}
+				o2 = append(o2, real(0)...)
+				o2 = append(o2, real(2)...)
+				schedules = append(schedules, o2)
+			}
+			for k := 0; k < 4; k++ {
+				sh := append([]int{}, all...)
+				for i := range sh {
+					j := i + g.Intn(len(sh)-i)
+					sh[i], sh[j] = sh[j], sh[i]
+				}
+				schedules = append(schedules, sh)
+			}
+			for _, order := range schedules {
+				r.Eval(1)
+				dels := c10Feed(net, layer, outer, frags, order)
+				if c10Check(r, caseID+"-failed-tell", layer, msgs, frags, order, dels, innerMTU) > 0 {
+					r.NonTrivial(fmt.Sprintf("%s/%d/failed-tell/parts=%d/fail=%d", layer.name, innerMTU, n, failAt))
+				}
+			}
 		}
 	}
 }
